@@ -7,7 +7,13 @@ strides, stride-0 = expanded dimensions, offsets), a semiring, requires_grad fla
 it; the extracted check function (Model/EinsumCheck.v) judges the result with the dense specification
 `einsum_dense` applied to the brute-force denotations of the operands (exact carriers) and compares it with the
 Gallina model `einsum_model` of the algorithm, including the decisions of `reduce_equation` (observed by a spy).
-A second check function evaluates the certificate under which C07_patterned_eq_dense applies to the case."""
+A second check function evaluates the certificate under which C07_patterned_eq_dense applies to the case.
+Two further streams: (6) operands with an EMPTY physical axis inside a non-empty virtual extent (a + K(0) + b: all-default
+tensors) with defaults that are mostly not the semiring's zero; (7) HISTORIES: several calls (einsum / mv / mm /
+log_viterbi_einsum_forward) on the same operand objects, with in-place updates of their contents in between (writes
+through the storage, physical.mul_/add_/logical_not_, neg_(), *=), or equal-looking replacement objects (same axes
+objects and other contents; the same physical tensor under a new PatternedTensor, possibly with another default); every
+call is judged by the same check functions on the operands' contents at the time of the call."""
 import itertools, math, random, json, warnings, traceback
 from fractions import Fraction
 from harness.core import *
@@ -51,6 +57,7 @@ ASSUMPTIONS = [
     "torch_semiring_einsum (with the multiply callbacks of fggs.semirings) is the dense einsum the property refers to; the check compares its results with the exact-carrier specification, so a defect there would surface as a violation as well",
     "Real: float64 on small dyadic values (exact); Log: the operands are log(x) of dyadic x and the result is read through exp with relative tolerance 1e-9; Viterbi: integer log-weights and +-inf (exact); Bool exact",
     "the torch strides of the physical tensors are passed to the model as data (stride 0 = expanded dimension); storage is read through (offset, strides) exactly as torch does",
+    "histories: the contents of an operand after an in-place update are computed by the harness (new values written, x2, +1, negation, logical not) independently of the library and handed to the check function as the operand of that call; an update is performed under torch.no_grad() on the storage tensor the physical tensor is a view of (or through PatternedTensor.neg_ / *= on operands without expanded dimensions)",
 ]
 
 INF = math.inf
@@ -750,7 +757,11 @@ def run(tier, seed):
                rule="cases = einsum signature x one typed patterned tensor per operand x semiring x requires_grad / grad mode; "
                     "signatures: all %d signatures with <= 3 operands, <= 4 indices (operand rank <= 3 and <= 5 index positions, or rank <= 2 and <= 6 positions; every ordered "
                     "selection of distinct output indices), all of them in thorough and a sample in quick, plus random larger ones, repeated output indices, an index with >= 4 attachments, the empty list, mv, mm, the Viterbi variant, and reduce_equation/post_einsum called directly on strided tensors with stride-0 and size-1 dimensions; "
-                    "patterns from the typed generator (exhaustive pairs of axes for the small types on i,i-> / i,i->i); non-trivial = some operand has a non-physical axis, a diagonal or an expanded (stride-0) dimension; distinct by full case data" % n_sigs,
+                    "patterns from the typed generator (exhaustive pairs of axes for the small types on i,i-> / i,i->i); "
+                    "stream (6): index types with a zero-size summand (a + 0 + b, a + (0 x 2), (0 + 2) x 2, ...), some operand choosing the empty summand (an empty physical axis inside a non-empty virtual extent), default != semiring zero in about 2/3 of the operands, einsum / mv / mm / Viterbi; "
+                    "stream (7): histories of 2-3 calls on the same operand objects (default != semiring zero in about 70%% of the operands), before every later call at least one operand is updated in place "
+                    "(copy into the storage, scale, neg_, *=) or replaced by an equal-looking object (fresh object over the same axes; same physical tensor under a new PatternedTensor, also with another default), the entry point may change between calls; every call is one evaluation judged on the contents at that time; "
+                    "the whole storage, strides, offset and identity of the physical tensor, axes and default of every operand are compared before/after each call; non-trivial = some operand has a non-physical axis, a diagonal or an expanded (stride-0) dimension; distinct by full case data" % n_sigs,
                signatures_enumerated=n_sigs, histogram=hist, verdicts=verdicts, kernel_reevaluated=kern,
                theorem_certificate=dict(cases=n_cert, verdicts=cert_hist,
                                         meaning="0 = the decidable premises of C07_patterned_eq_dense_partial / C07_zero_result_partial hold for the case (soundness and completeness); 1 = only those of the soundness half; other = the theorem does not apply (see notes). Run-time cross-check of C07_cert_premises_typed, which proves verdict 0 for every run on operands typed over good index types",
@@ -819,7 +830,7 @@ def replay(path):
 
 MANIFEST = dict(
     level="proof",
-    text="Coq theorems about a Gallina model of fggs.indices.einsum / log_viterbi_einsum_forward / project and fggs.equation.reduce_equation / post_einsum: the dense specification (empty list = one, zero-size summed index = zero, permutation invariance), the patterned algorithm equals the specification on the operands' denotations (re-indexing of the sum over virtual indices by the injective physical parametrisation; soundness half without the completeness premise; under decidable premises evaluated per case; WITHOUT premises for operands typed in a common context over good index types: C07_patterned_eq_dense_typed, all exits, any defaults, shared axes, __post_init__ included -- every certificate premise is derived from typing (C07_cert_premises_typed: the substitution is well typed and acyclic, unify is complete along the loop, default_to/freshen preserve the denotation), also mv/mm (C07_mv_typed, C07_mm_typed) and the Viterbi pointers (C07_argmax_typed)), reduce_equation is sound, the Viterbi pointers attain the maximum and are eval of the summed axes at the physical argmax (also for repeated output indices, repaired in /repo 3f6a623), mv/mm are instances. The model is tied to /repo by running both on generated signatures x typed patterns x 4 semirings x requires_grad; the specification applied to brute-force denotations judges every implementation output inside Coq (exact carriers).",
+    text="Coq theorems about a Gallina model of fggs.indices.einsum / log_viterbi_einsum_forward / project and fggs.equation.reduce_equation / post_einsum: the dense specification (empty list = one, zero-size summed index = zero, permutation invariance), the patterned algorithm equals the specification on the operands' denotations (re-indexing of the sum over virtual indices by the injective physical parametrisation; soundness half without the completeness premise; under decidable premises evaluated per case; WITHOUT premises for operands typed in a common context over good index types: C07_patterned_eq_dense_typed, all exits, any defaults, shared axes, __post_init__ included -- every certificate premise is derived from typing (C07_cert_premises_typed: the substitution is well typed and acyclic, unify is complete along the loop, default_to/freshen preserve the denotation), also mv/mm (C07_mv_typed, C07_mm_typed) and the Viterbi pointers (C07_argmax_typed)), reduce_equation is sound, the Viterbi pointers attain the maximum and are eval of the summed axes at the physical argmax (also for repeated output indices, repaired in /repo 3f6a623), mv/mm are instances. An operand with an empty physical axis is all-default whatever its virtual shape (C07_empty_physical_is_all_default / _denote). The model is tied to /repo by running both on generated signatures x typed patterns x 4 semirings x requires_grad, on operands with an empty physical axis inside a non-empty virtual extent and defaults other than the semiring zero, and on histories of calls on the same operand objects with in-place updates in between (each call judged on the contents at that time); the specification applied to brute-force denotations judges every implementation output inside Coq (exact carriers).",
     note="Known finding F23: log_viterbi_einsum_forward computes +inf + -inf = nan (torch_semiring_einsum's plain addition). Trusted: Coq kernel + vm_compute, extraction cross-checked against vm_compute, the Python harness (numbering of PhysicalAxis objects, reading of torch storage/strides, exp reading of the Log semiring within 1e-9), torch_semiring_einsum as the dense einsum under test.",
     technique="Coq proof (model + theorems) + model/implementation correspondence with a verified dense-specification oracle + per-case evaluation of the theorem's decidable premises",
     design_ref="DESIGN.md section 6, C07; section 7; Appendix A.6")
